@@ -70,10 +70,11 @@ def mask_answer(req: bytes, ans):
     return ans.hex()
 
 
-async def _run_history(S, srv, history):
+async def _run_history(S, srv, history, tr=None):
     from gallia.transports import TargetURI
 
-    tr = S.UDSServerTransport(srv, TargetURI("tcp://127.0.0.1:1"))
+    if tr is None:
+        tr = S.UDSServerTransport(srv, TargetURI("tcp://127.0.0.1:1"))
     answers = []
     for item in history:
         if item.startswith("unlock:"):
@@ -183,9 +184,23 @@ def defaults_fingerprint(S):
             "mandatory_sessions": [int(x) for x in P.mandatory_sessions]}
 
 
+def set_global_random(spec):
+    """the state of the process-global `random` module is part of the environment: `None` leaves the os.urandom-seeded state of
+    a fresh interpreter, `[seed, advance]` seeds it and advances it by `advance` draws (what unrelated code of the same
+    process may have done before the virtual ECU is started).  A virtual ECU must not care."""
+    import random
+
+    if spec is None:
+        return
+    random.seed(spec[0])
+    for _ in range(int(spec[1])):
+        random.random()
+
+
 def main():
     job = json.loads(sys.stdin.read())
     S = load_server_module(job.get("import_order", 0))
+    set_global_random(job.get("global_random"))
     res = {"defaults": defaults_fingerprint(S), "runs": []}
     # the order in which this process builds and questions the ECUs differs between environments (`order`: a permutation of the
     # configuration indices): what an ECU answers must not depend on which other ECUs the process has seen before
